@@ -2,7 +2,7 @@
  * License, v. 2.0. If a copy of the MPL was not distributed with this
  * file, You can obtain one at http://mozilla.org/MPL/2.0/. */
 use crate::assembly::{Instr, Line, Reg};
-use crate::vm::AbraInt;
+use crate::vm::{AbraInt, checked_pow_int};
 
 pub(crate) fn optimize(lines: Vec<Line>) -> Vec<Line> {
     let mut len = lines.len();
@@ -295,8 +295,8 @@ fn peephole3_helper(lines: &[Line], index: usize, ret: &mut Vec<Line>) -> bool {
                         Instr::PushInt(a),
                         Instr::PushInt(b),
                         Instr::PowInt(Reg::Top, Reg::Top, Reg::Top),
-                    ) if a.checked_pow(*b as u32).is_some() => {
-                        let c = a.pow(*b as u32);
+                    ) if checked_pow_int(a, *b).is_some() => {
+                        let c = checked_pow_int(a, *b).unwrap();
                         ret.push(Line::Instr {
                             instr: Instr::PushInt(c),
                             lineno,
